@@ -97,7 +97,7 @@ var c01Wrappers = []c01Wrapper{
 	{name: "goto_out", slots: 2, render: func(h []string, id int) string {
 		// goto forward, out of a loop
 		return fmt.Sprintf("for i%d := 0; i%d < 3; i%d++ {\n", id, id, id) + c01Ind(h[0]) +
-			fmt.Sprintf("\tif i%d == b {\n\t\tgoto L%d\n\t}\n", id, id) + c01Ind(h[1]) + fmt.Sprintf("}\nL%d:\n", id)
+			fmt.Sprintf("\tif i%d == b {\n\t\tgoto L%d\n\t}\n", id, id) + c01Ind(h[1]) + fmt.Sprintf("}\nL%d:\n\t;\n", id)
 	}},
 	{name: "goto_back", slots: 2, decls: func(id int) string { return fmt.Sprintf("var n%d int\n", id) },
 		render: func(h []string, id int) string {
@@ -291,6 +291,30 @@ func c01EnumerateL(sp c01LSpace, visit func(p c01Prog) bool) {
 			}
 		}
 	}
+}
+
+// c01CountL returns the number of programs in the space (without enumerating it).
+func c01CountL(sp c01LSpace) int64 {
+	var total int64
+	for _, st := range sp.Stages {
+		depth, n := st[0], st[1]
+		for _, sh := range c01Shapes(depth) {
+			h := sh.countHoles() + 1
+			if sp.Leading {
+				h++
+			}
+			// compositions of n into h parts: C(n+h-1, h-1); times alphabet^n
+			c := int64(1)
+			for i := 1; i <= h-1; i++ {
+				c = c * int64(n+i) / int64(i)
+			}
+			for range n {
+				c *= int64(len(c01Alphabet))
+			}
+			total += c
+		}
+	}
+	return total
 }
 
 func c01RenderL(sh *c01Shape, fill [][]int, leading bool) c01Prog {
